@@ -127,7 +127,7 @@ pub fn generate_with(seed: u64, lite: bool) -> Plan {
     let mut plan = generate_full(seed, lite);
     if lite {
         for t in plan.threads.iter_mut() {
-            t.truncate(2);
+            t.truncate(3);
             for op in t.iter_mut() {
                 lite_op(&mut op.what, &mut op.spec, seed);
                 if let Some((_, w, s)) = op.nested.as_mut() {
@@ -181,7 +181,7 @@ fn generate_full(seed: u64, lite: bool) -> Plan {
     // a random subset of the types per run
     let k = 1 + r.below(4);
     let types: Vec<usize> = (0..k).map(|_| r.below(TABLE.len())).collect();
-    let n_threads = if lite { 2 + r.below(2) } else { 1 + r.below(4) };
+    let n_threads = if lite { 3 } else { 1 + r.below(4) };
     let mut threads = Vec::new();
     let mut pool = Vec::new();
     for _ in 0..n_threads {
